@@ -206,7 +206,7 @@ def ffsFiles (data : Bytes) (length : Nat) : Except Err Unit :=
   let headerLen := fromLE (slice data 48 2)
   let extOff := fromLE (slice data 52 2)
   let dataOffset := align8 (
-    if extOff ≠ 0 ∧ length ≥ fvExtHeaderMin ∧ extOff < length - fvExtHeaderMin
+    if extOff ≠ 0 ∧ length ≥ fvExtHeaderMin ∧ extOff ≤ length - fvExtHeaderMin
     then extOff + fromLE (slice data (extOff + 16) 4) else headerLen)
   let lh := u64 (length + 2 ^ 64 - fileHeaderMin)
   if ¬ dataOffset ≤ lh then .ok () else
